@@ -268,5 +268,10 @@ CASES.append(Case("finite/policy-empty-invalid", bad_policy_case, functions=["RD
                   sym=False))
 
 
+# cells addressed by index, tuple or coordinate object resolve to the same entry (C13's accessor cases, symbolic grid shape)
+from props import C13 as _C13
+for _pf in ("index", "tuple", "object"):
+    CASES.append(_C13.accessor_case("label", _pf))
+
 from vc.core.leanstep import lean_step as _lean_step
 EXTRA = [_lean_step("Ivt.lean", "C17", ["L_IVT", "L_IVT'"])]
